@@ -132,6 +132,10 @@ func runSplitFiles(t *simrt.Tape, keep bool) simrt.Outcome {
 		rs[i].BytesIn %= 1 << 40
 		rs[i].BytesOut %= 1 << 40
 	}
+	if total > 1 && t.Prob(1, 8) {
+		rs[1+t.Choose(total-1)].Body = bytes.Repeat([]byte("B"), 70000+t.Choose(60000)) // a record beyond 64 KiB
+		r.stats["probe.record-larger-than-64KiB"]++
+	}
 	k := 1 + t.Choose(6)
 	part := make([]int, total)
 	for i := range part {
